@@ -270,6 +270,21 @@ def handle (c : Config) (s : State) (r : Req) (wait : Wait := .sequenced) : Stat
       | .poolFull => (uploadIssuers s e, ⟨waitStatus .poolFull, some (.admit e ch)⟩)
       | w => (enterPool (uploadIssuers s e) e, ⟨waitStatus w, some (.admit e ch)⟩)
 
+/-- The same request when the object store fails (without applying) the first issuer upload the request
+triggers (`uploadIssuer` → `Backend.Upload` error): `addLeafToPool` returns the error before taking `poolMu`,
+nothing is stored, the entry reaches no pool and the answer is 500. The in-memory "seen issuers" set is
+only updated after a successful upload, so a retry uploads again. When every issuer of the entry is
+already stored no upload is attempted and there is nothing to fail. -/
+def handleIssuerFault (c : Config) (s : State) (r : Req) : State × Response :=
+  match r.method with
+  | .post =>
+    match admission c s.roots r with
+    | .reject _ => handle c s r
+    | .admit e ch =>
+      if e.issuers.all (fun i => s.issuers.contains i) then handle c s r
+      else (s, ⟨waitStatus .failed, some (.admit e ch)⟩)
+  | _ => handle c s r
+
 /-! ## Operation sequences (for the root-pool and issuer invariants) -/
 
 inductive Op
